@@ -883,7 +883,7 @@ __CPROVER_decreases(prm.degree - k)
 """
 
 chebyshev_solve = Unit(
-    name='chebyshev_solve', props=['C06', 'C10'],
+    name='chebyshev_solve', props=['C06', 'C15', 'C10'],
     functions=['relaxation::chebyshev<Backend>::solve(const Matrix&, const VectorB&, VectorX&) const'],
     desc='Chebyshev smoother, every degree: exactly `degree` steps r = [M .*](b - A x), p = alpha_k r + beta_k p, x = x + p with alpha_0 = 1/d, alpha_1 = 2d/(2d^2 - c^2), '
          'alpha_k = 1/(d - alpha_{k-1} c^2/4), beta_0 = 0, beta_k = alpha_k d - 1 (uninterpreted scalar terms in evaluation order); the residual is taken from the current x, '
